@@ -292,13 +292,13 @@ def bounds_violation(blocks, lim):
     return None
 
 
-def update_kind(update):
-    exclude, append = update
-    if len(exclude) == 1:
-        return "split"
-    if len(append) == 1:
-        return "merge"
-    return "move"
+def result_kind(before, after):
+    """merge / split / move, read off the values (one block fewer, one more, same count)."""
+    try:
+        d = len(after) - len(before)
+    except TypeError:
+        return "other"
+    return "split" if d > 0 else "merge" if d < 0 else "move"
 
 
 # --------------------------------------------------------------------------------------
@@ -403,10 +403,8 @@ def run(sc) -> RunResult:
             res.log("initial", "draw-budget")
             return res
         except (IndexError, ValueError) as e:
-            if "empty" not in str(e):
-                res.violate("C18/unexpected-exception", f"initial() raised {type(e).__name__}: {e} [{tag}]")
-                return res
-            # random.choice([]) inside initial(): no candidate from an unmet configuration
+            # random.choice([]) inside initial() (no candidate from an unmet configuration), or an
+            # explicit "bounds cannot be met": nothing was returned, the property is silent
             res.inconclusive = True
             res.hit("inconclusive:initial_no_candidate")
             res.log("initial", "no-candidate", str(e)[:60])
@@ -456,58 +454,58 @@ def run(sc) -> RunResult:
                 res.hit("probe:no_candidates")
                 res.log("step", step, "no-candidates")
                 break
-            by_kind = {}
-            for i, u in enumerate(cands):
-                by_kind.setdefault(update_kind(u), []).append(i)
-            for k, lst in by_kind.items():
-                res.hit("proposed:" + k, len(lst))
-            pool = by_kind.get(prefer) or list(range(len(cands)))
-            chosen = pool[pick % len(pool)]
-            # breadth: up to 48 evenly spaced candidates plus the chosen one
+            # breadth: up to 48 evenly spaced candidates.  What an update object looks like is the
+            # builder's own business (today a pair (exclude, append)); its kind is read off the result.
+            cands = list(cands)
             if len(cands) <= 48:
                 breadth = list(range(len(cands)))
             else:
                 stride = len(cands) / 48.0
-                breadth = sorted({int(i * stride) for i in range(48)} | {chosen})
-            nxt = None
+                breadth = sorted({int(i * stride) for i in range(48)})
+            results = {}
             for i in breadth:
                 u = cands[i]
-                u_snapshot = copy.deepcopy(u)
+                try:
+                    u_snapshot = copy.deepcopy(u)
+                except Exception:
+                    u_snapshot = None
                 try:
                     out = builder.copy_with_update(cur, u)
                 except Exception as e:
                     res.violate("C18/unexpected-exception", f"step {step}: copy_with_update raised {type(e).__name__}: {str(e)[:120]} [{tag}]")
                     return res
                 res.steps += 1
-                res.hit("applied_breadth:" + update_kind(u))
+                kind = result_kind(cur, out)
+                res.hit("applied_breadth:" + kind)
                 if cur != snapshot:
                     res.violate(
                         "C18/source-value-mutated",
-                        f"step {step}: copy_with_update({update_kind(u)}) modified the value it was applied to [{tag}]",
+                        f"step {step}: copy_with_update({kind}) modified the value it was applied to [{tag}]",
                     )
                     return res
-                if u != u_snapshot:
+                if u_snapshot is not None and u != u_snapshot:
                     res.hit("note:update_object_modified")
                 v = check_partition(out, h, w)
                 if v:
-                    res.violate(v[0], f"step {step}: after {update_kind(u)} update {_fmt_update(u)} of {canonical(cur)}: {v[1]} [{tag}]")
+                    res.violate(v[0], f"step {step}: after {kind} update {_fmt_update(u)} of {canonical(cur)}: {v[1]} [{tag}]")
                     return res
                 if inside:
                     bv = bounds_violation(out, lim)
                     if bv:
-                        res.violate(bv[0], f"step {step}: after {update_kind(u)} update {_fmt_update(u)} of {canonical(cur)}: {bv[1]} [{tag}]")
+                        res.violate(bv[0], f"step {step}: after {kind} update {_fmt_update(u)} of {canonical(cur)}: {bv[1]} [{tag}]")
                         return res
-                if i == chosen:
-                    nxt = out
-            # aliasing probe: mutate a *copy target*?  no - never touch values; instead re-check the source once more
-            kinds_applied.add(update_kind(cands[chosen]))
-            res.hit("applied_depth:" + update_kind(cands[chosen]))
+                results[i] = (kind, out)
+            pool = [i for i in breadth if results[i][0] == prefer] or breadth
+            chosen = pool[pick % len(pool)]
+            kind, nxt = results[chosen]
+            kinds_applied.add(kind)
+            res.hit("applied_depth:" + kind)
             cur = nxt
             if not inside and bounds_violation(cur, lim) is None:
                 inside = True
                 res.hit("probe:walk_entered_bounds")
             res.states.add(f"{h}x{w}:" + hashlib.sha256(repr(canonical(cur)).encode()).hexdigest()[:14])
-            res.log("step", step, update_kind(cands[chosen]), len(cands), canonical(cur), seam.draws)
+            res.log("step", step, kind, len(cands), canonical(cur), seam.draws)
         if {"merge", "split", "move"} <= kinds_applied:
             res.nontrivial = True
         res.hit("draws", seam.draws)
@@ -520,8 +518,11 @@ def run(sc) -> RunResult:
 
 
 def _fmt_update(u):
-    ex, ap = u
-    return f"(exclude {list(ex)}, append {[sorted(b) for b in ap]})"
+    try:
+        ex, ap = u
+        return f"(exclude {list(ex)}, append {[sorted(b) for b in ap]})"
+    except Exception:
+        return repr(u)[:200]
 
 
 def shrink_candidates(sc):
